@@ -8,7 +8,7 @@ def run(ctx):
     modes = drv.QUICK_MODES if ctx.quick else drv.ALL_MODES
     nh = 500 if ctx.quick else 8000
     ctx.rule = ("seeded histories biased to many records per bucket, tombstones first/middle/last, re-insertion, "
-                "1-300 keys, writes through sync and async entry points with metadata/raw metadata/time options; "
+                "1-300 keys (one history per run with 3000, thorough also 20000), writes through sync and async entry points with metadata/raw metadata/time options; "
                 "after the history (and at random intermediate points) list_sync is compared as a multiset with "
                 "the model AND with metadata_sync(key) for every key ever used. distinct = distinct "
                 "(number of live keys, number of tombstoned keys, max records per bucket, tombstone-position "
@@ -18,6 +18,9 @@ def run(ctx):
     for h in range(nh):
         cache = ctx.new_cache()
         nkeys = rng.choice([1, 2, 3, 5, 8, 20, 60] + ([300] if (not ctx.quick or h % 40 == 0) else []))
+        if h == 1 or (not ctx.quick and h % 100 == 1):
+            # thousands of keys: many share first- and second-level index directories
+            nkeys = 3000 if ctx.quick or h != 1 else 20000
         keys = []
         pool = list(gen.HOSTILE_KEYS)
         rng.shuffle(pool)
@@ -62,7 +65,7 @@ def run(ctx):
                                                      "data": ctx.data(data)}, "data": data})
                 pattern.setdefault(k, []).append("W")
             nrec[k] = nrec.get(k, 0) + 1
-            if rng.random() < 0.05:
+            if rng.random() < (0.05 if nkeys < 1000 else 0.001):
                 steps.append({"mode": "sync@astd", "req": {"op": "list", "cache": cache}, "probe": True})
         steps.append({"mode": "sync@astd", "req": {"op": "list", "cache": cache}, "probe": True, "final": True})
         for k in keys:
